@@ -364,6 +364,24 @@ pub fn check(c0: &Case, st: &mut Stats) -> CheckResult {
     }
     // per-kind expected values
     let in_val = |j: usize, b: usize, i: usize, call: usize| val(&c, j, b, i, call);
+    if c.kind == Kind::Pass && n_in >= 2 {
+        // "copies the buffers of a single input": which input counts as the first is the graph's business, but it must be
+        // ONE input, the same in every call, copied channel for channel, with the outputs beyond its channel count untouched
+        let consistent = |j: usize| -> bool {
+            (0..c.calls).all(|call| {
+                (0..c.n_out).all(|ch| {
+                    let got = &outs[call][ch];
+                    if ch < c.bufs_in[j] {
+                        (0..LEN).all(|i| got[i] == in_val(j, ch, i, call))
+                    } else {
+                        f32s_eq(got, &sentinel(ch))
+                    }
+                })
+            })
+        };
+        ensure!((0..n_in).any(consistent), "Pass with {} inputs of {:?} buffers and {} outputs: the outputs are not the channel-for-channel copy of any single input with the remaining outputs left untouched", n_in, c.bufs_in, c.n_out);
+        st.class("pass node with several inputs");
+    }
     let mut fifo: Vec<VecDeque<f32>> = c.delay_lens.iter().map(|&l| std::iter::repeat(0.0).take(l.max(1)).collect()).collect();
     // direct reference for the nested graph
     let mut direct = if c.kind == Kind::GraphNode { Some((mk_inner(&c), Processor::<Inner>::with_capacity(n_in + 1))) } else { None };
@@ -383,8 +401,8 @@ pub fn check(c0: &Case, st: &mut Stats) -> CheckResult {
                         ensure!(close(got[i], &terms), "SumBuffers: call {} output buffer {} sample {} = {}, sum of all buffers of all inputs = {}", call, ch, i, got[i], terms.iter().sum::<f32>());
                     }
                 }
+                Kind::Pass if n_in >= 2 => {} // several inputs: checked once per run below
                 Kind::Pass => {
-                    ensure!(n_in <= 1, "bad case: the pass node's contract is about a single input");
                     if n_in == 1 && ch < c.bufs_in[0] {
                         for i in 0..LEN {
                             ensure!(got[i] == in_val(0, ch, i, call), "Pass: call {} output {} sample {} = {}, input sample {}", call, ch, i, got[i], in_val(0, ch, i, call));
@@ -458,7 +476,8 @@ pub fn case_strategy() -> impl Strategy<Value = Case> {
     (0usize..6, 0usize..8, any::<bool>(), 1usize..=6, 0usize..=4, any::<u32>()).prop_flat_map(|(k, w, exact, calls, n_out, salt)| {
         let kind = KINDS[k];
         let max_in = match kind {
-            Kind::Pass | Kind::Delay => 1usize,
+            Kind::Pass => 3usize,
+            Kind::Delay => 1usize,
             Kind::Signal => 0,
             _ => 6,
         };
@@ -487,12 +506,12 @@ pub fn case_strategy() -> impl Strategy<Value = Case> {
 
 pub fn run(ctx: &mut Ctx) {
     ctx.set_rule(
-        "cases are (node kind out of Sum, SumBuffers, Pass, Delay, signal node, GraphNode; wrapper out of bare, &mut, Box, BoxedNode, BoxedNodeSend, Box<dyn FnMut>, Box<dyn Fn>, fn pointer; 0..6 inputs (Pass/Delay 0 or 1) with 0..4 buffers each, \
+        "cases are (node kind out of Sum, SumBuffers, Pass, Delay, signal node, GraphNode; wrapper out of bare, &mut, Box, BoxedNode, BoxedNodeSend, Box<dyn FnMut>, Box<dyn Fn>, fn pointer; 0..6 inputs (Delay 0 or 1, Pass 0..3) with 0..4 buffers each, \
          0..4 output buffers (mismatched on purpose), 1..6 consecutive process calls with fresh input contents, exact (grid k/64) or inexact contents, scaled by 2^e with e down to -143 (quiet and subnormal signals), Delay ring lengths 1..200 per channel, signal frames of 1..4 channels, inner graph shape); \
          inputs are supplied by constant-writer source nodes in a real graph (dense contents, or impulses 193 samples apart with silent blocks between them); the node under test may also carry an edge onto itself; non-trivial: mismatched channel counts, zero inputs, >= 2 consecutive calls on a stateful node, or a wrapper",
     );
     ctx.assume("Sum / SumBuffers compared with the exact sum on grid contents (input order irrelevant) and within n eps sum|x| otherwise; surplus outputs are pre-filled with a sentinel pattern and must stay untouched where the documentation says so; wrappers must be bit-identical to the bare node; dasp_graph is built against the crates.io 0.11.0 dasp_ring_buffer / dasp_signal / dasp_frame exactly as the repository's lock file resolves them");
-    for c in ["mismatched channel counts", "zero inputs", "consecutive calls on a stateful node", "wrapper", "input level below 2^-24", "node with inputs and an edge onto itself", "delay fed impulses separated by silent blocks", "signal node over a signal that ends during the run", "nested graph whose output node carries state between calls"] {
+    for c in ["mismatched channel counts", "zero inputs", "consecutive calls on a stateful node", "wrapper", "input level below 2^-24", "node with inputs and an edge onto itself", "delay fed impulses separated by silent blocks", "pass node with several inputs", "signal node over a signal that ends during the run", "nested graph whose output node carries state between calls"] {
         ctx.require_class(c);
     }
     ctx.prop("random-configurations", ctx.pick(40_000, 400_000), case_strategy(), check);
@@ -501,7 +520,7 @@ pub fn run(ctx: &mut Ctx) {
     for &kind in &KINDS {
         for &wrapper in &WRAPPERS {
             for (bufs_in, n_out) in [(vec![], 2usize), (vec![2], 2), (vec![1], 3), (vec![3], 1), (vec![2, 2, 2], 2), (vec![0, 3, 1], 2)] {
-                if matches!(kind, Kind::Pass | Kind::Delay) && bufs_in.len() > 1 {
+                if matches!(kind, Kind::Delay) && bufs_in.len() > 1 {
                     continue;
                 }
                 if kind == Kind::Signal && !bufs_in.is_empty() {
